@@ -80,6 +80,39 @@ PROPS = {
         "rule": "cases = rule under test x input over {a, LF, CR} x eol policy x tracking mode; non-trivial = cursor observations "
                 "compared with PosOf by TLC",
     },
+    "C05": {
+        "families": ["exc"],
+        "must_count": ["xcs", "raise", "cases"],
+        "nontrivial_key": "xcs",
+        "level": "Den gives the first must/raise in evaluation order (rule, start of the attempt, nesting) and what each try_catch "
+                 "catches; TLC compares, for every invocation an exception passes through and at the end of the run, exception class, "
+                 "blamed rule via the message (default / custom error_message), position window, byte/line/column consistency and what(); "
+                 "exceptions thrown by actions (parse_error and a foreign type) are part of the corpus",
+        "rule": "cases = grammar with must/raise/try_catch constructs (systematic contexts + seeded random) x input x configuration; "
+                "non-trivial = rule invocations left by an exception (xc events) validated by TLC",
+    },
+    "C04": {
+        "families": ["act", "core"],
+        "must_count": ["act", "cases"],
+        "nontrivial_key": "act",
+        "level": "for every action call observed through the control (and every action listed in if_apply/apply/apply0) TLC checks: "
+                 "actions enabled, rule visible, exactly the attached kind, at most one call per match and exactly one per successful "
+                 "match, span = [start of the match, cursor], the rule's body denotes a match of exactly that span, a false return turns "
+                 "the match into a failure at its start; surviving derivation follows because every invocation's outcome equals Den",
+        "rule": "cases = grammar with void/bool/throwing actions attached to named rules, enable/disable/action<>/at/not_at/if_apply/"
+                "apply/apply0 nesting x input x configuration; non-trivial = action invocations validated by TLC",
+    },
+    "C08": {
+        "families": ["exc", "act", "core"],
+        "must_count": ["hook", "xcs", "cases"],
+        "nontrivial_key": "hook",
+        "level": "a phase automaton per open invocation (entered, started, applied, ended by success/failure/unwind) is advanced by TLC "
+                 "on every hook event; start once and first, success iff returned true, failure iff returned false, unwind iff an "
+                 "exception passes (controls with unwind()), raise only from a must-context whose sub-rule just failed or a raise rule, "
+                 "nothing for disabled rules; controls with/without unwind, internal rules visible/hidden",
+        "rule": "cases = corpus grammar x input x configuration incl. runs ending in exceptions from must rules and from actions; "
+                "non-trivial = control hook events validated by TLC",
+    },
     "C01": {
         "families": ["core"],
         "level": L_DEN + "all depth<=1 grammars over the core operators and atoms plus a seeded sample of deeper, recursive "
